@@ -2,16 +2,20 @@ package config
 
 // X4: weights are reduced by their GCD.
 func HarnessC15SpreadNames() {
-	n := 2
-	if vThorough() {
-		n = int(vConcretize(vNondetInt("n", 2, 3)))
-	}
+	n := int(vConcretize(vNondetInt("n", 2, vHi(3, 4))))
 	var in []ScenarioConfig
-	names := []string{"a", "b", "c"}
+	names := []string{"a", "b", "c", "d"}
 	ws := make([]int64, n)
 	for i := 0; i < n; i++ {
-		ws[i] = vConcretize(vNondetInt("w", 1, 12)) // case split: Euclid's loop runs on concrete weights
+		hi := int64(12)
+		if n >= 3 {
+			hi = 6 // (three and four scenarios: weights up to 6)
+		}
+		ws[i] = vConcretize(vNondetInt("w", 0, hi)) // case split: Euclid's loop runs on concrete weights
 		in = append(in, ScenarioConfig{Name: names[i], Weight: ws[i]})
+		if ws[i] == 0 {
+			ws[i] = 1 // a scenario without weight counts once
+		}
 	}
 	cnt, total := SpreadNames(in)
 	sum := 0
